@@ -41,6 +41,7 @@ type FEv struct {
 	Cas  uint64 `json:"cas"`
 	Tick int64  `json:"tick"`
 	Val  []byte `json:"-"`
+	Coll uint32 `json:"coll,omitempty"` // CollectionID of the event (multi-collection feeds)
 }
 
 func NewFeedLog(id string, coll, handle int) *FeedLog {
@@ -59,7 +60,7 @@ func (f *FeedLog) Callback(e sgbucket.FeedEvent) bool {
 		f.after++
 	default:
 	}
-	ev := FEv{Op: uint8(e.Opcode), Key: string(e.Key), Cas: e.Cas, Tick: Tick.Add(1)}
+	ev := FEv{Op: uint8(e.Opcode), Key: string(e.Key), Cas: e.Cas, Tick: Tick.Add(1), Coll: e.CollectionID}
 	if f.KeepVal {
 		ev.Val = append([]byte(nil), e.Value...)
 	}
